@@ -325,15 +325,11 @@ pub fn check_c07(src: &str, out: &str) -> Option<String> {
             }
         }
     }
-    if av.len() != bv.len() {
-        return Some(format!("directive/node sequence differs: {:?} vs {:?}", av, bv));
-    }
-    for (x, y) in av.iter().zip(bv.iter()) {
-        if x.starts_with("N:") || x.starts_with("D:") {
-            if x != y {
-                return Some(format!("after directive: {:?} vs {:?}", x, y));
-            }
-        }
+    // the directives themselves are kept, in order
+    let da: Vec<&&str> = av.iter().filter(|x| x.starts_with("D:")).collect();
+    let db: Vec<&&str> = bv.iter().filter(|x| x.starts_with("D:")).collect();
+    if da != db {
+        return Some(format!("directive comments differ: {:?} vs {:?}", da, db));
     }
     None
 }
@@ -376,6 +372,11 @@ fn walk_c08(n: &SyntaxNode, acc: &mut Vec<String>) {
                 _ => s.push('\u{1}'),
             }
         }
+        // comments may move across punctuation (C06); white space next to them is not prose
+        while s.contains(" \u{2}") || s.contains("\u{2} ") {
+            s = s.replace(" \u{2}", "\u{2}").replace("\u{2} ", "\u{2}");
+        }
+        let s = s.replace('\u{2}', "");
         // outer edges may change
         let t = s.trim_matches(|c: char| c == ' ' || c == '\n').to_string();
         let t = trim_par_edges(&t);
@@ -447,10 +448,16 @@ fn ser_math(n: &SyntaxNode, out: &mut String) {
     match k {
         K::Math | K::MathDelimited => {
             out.push_str(if k == K::Math { "M[" } else { "D[" });
+            let mut after_hash = false;
             for c in n.children() {
                 if c.kind() == K::Space {
                     out.push(ws_class(c));
+                } else if after_hash {
+                    // embedded code: formatted as code, not math
+                    out.push_str("code");
+                    after_hash = false;
                 } else {
+                    after_hash = c.kind() == K::Hash;
                     ser_math(c, out);
                 }
             }
@@ -491,15 +498,23 @@ fn ser_math(n: &SyntaxNode, out: &mut String) {
 
 fn walk_c09(n: &SyntaxNode, acc: &mut Vec<String>) {
     if n.kind() == K::Equation {
-        let mut s = String::from("E[");
+        // at the edges of an equation only the presence of white space matters (block/inline)
+        let block = n.cast::<ast::Equation>().map(|e| e.block()).unwrap_or(false);
+        let mut body = String::new();
+        let mut empty = true;
         for c in n.children() {
             match c.kind() {
-                K::Space => s.push(ws_class(c)),
-                K::Dollar => s.push('$'),
-                _ => ser_math(c, &mut s),
+                K::Space | K::Dollar => {}
+                k if is_comment(k) => body.push('c'),
+                _ => {
+                    if c.children().any(|g| g.kind() != K::Space && !is_comment(g.kind())) || (c.children().len() == 0 && !c.text().is_empty()) {
+                        empty = false;
+                    }
+                    ser_math(c, &mut body)
+                }
             }
         }
-        s.push(']');
+        let s = if empty { "E[empty]".to_string() } else { format!("E[{}{}]", if block { "B" } else { "I" }, body) };
         acc.push(s);
     }
     for c in n.children() {
